@@ -4,12 +4,13 @@ EXTENDS Cli, Json, IOUtils, SequencesExt, FiniteSetsExt
 
 CloneModes ==
   {mm \in [cmd : {"clone"}, out : {"absent", "regular", "empty", "dangling", "bd_small", "bd_tail", "bd_equal", "bd_large"}, force : BOOLEAN, inplace : BOOLEAN,
-           arch : {"valid", "invalid"}, pin : {"none", "match", "mismatch"}, nseeds : {0, 2}, stdin_seed : BOOLEAN,
+           arch : {"valid", "invalid", "invalid_dict"}, pin : {"none", "match", "mismatch"}, nseeds : {0, 2}, stdin_seed : BOOLEAN,
            verify_out : BOOLEAN, transport : {"local", "http"}, empty_input : {FALSE}, stale_tmp : {"none"},
            late : {"none", "bad_chunk"}, race : {"none", "appears"}, seed_out : BOOLEAN] :
-     /\ (mm.arch = "invalid" => mm.pin = "none")
+     /\ (mm.arch # "valid" => mm.pin = "none")
      \* the output itself named as a seed (spelled exactly like the output): naming it as a seed is not asking for an in-place update - only the refusal is a mode here
-     /\ (mm.seed_out => mm.out = "regular" /\ ~mm.force /\ ~mm.inplace /\ mm.arch = "valid" /\ mm.pin # "mismatch" /\ mm.race = "none" /\ mm.late = "none")
+     \* (with --force-create the same command proceeds: the output is then read as a seed while it is written - still no file but the output is touched)
+     /\ (mm.seed_out => mm.out = "regular" /\ ~mm.inplace /\ mm.arch = "valid" /\ mm.pin # "mismatch" /\ mm.race = "none" /\ mm.late = "none")
      \* a dangling link is only ever refused here (what --force-create / --seed-output do through a link is the file system's business)
      /\ (mm.out = "dangling" => ~mm.force /\ ~mm.inplace /\ mm.nseeds = 0 /\ ~mm.stdin_seed /\ ~mm.verify_out)
      \* a damaged chunk: nothing else may provide it (no seeds; the runner gives an in-place output unrelated content), any output kind that proceeds
